@@ -29,6 +29,18 @@ let () =
   let open_tokens : (int, int) Hashtbl.t = Hashtbl.create 8 in  (* worker -> slot *)
   let maxopen = ref 0 and enters = ref 0 and fulls = ref 0 in
   let begins : (int, bool) Hashtbl.t = Hashtbl.create 8 in   (* slot -> begin epoch currently non-zero *)
+  let begin_val : (int, int) Hashtbl.t = Hashtbl.create 8 in  (* slot -> published begin epoch *)
+  let cur_epoch = ref (-1) in
+  (* counted = the epoch cannot run away from an open session: while a session with begin epoch b is open the global
+     epoch is b or b + 1 (the epoch thread advances only when every open session has caught up) *)
+  let check_epoch_gap seq =
+    if !cur_epoch >= 0 then
+      Hashtbl.iter (fun w i ->
+          match Hashtbl.find_opt begin_val i with
+          | Some b when b <> 0 && !cur_epoch - b > 1 ->
+            Printf.printf "VIOLATION open session of worker %d (slot %d) has begin epoch %d while the global epoch is %d: it was not counted while the epoch advanced (seq %d)\n" w i b !cur_epoch seq;
+            exit 0
+          | _ -> ()) open_tokens in
   let check_counted seq =
     Hashtbl.iter (fun w i ->
         if not (try Hashtbl.find begins i with Not_found -> false) then begin
@@ -61,6 +73,7 @@ let () =
                   Printf.printf "VIOLATION more than %d sessions open (seq %d)\n" !n seq; exit 0 end;
                 maxopen := max !maxopen (Hashtbl.length open_tokens);
                 check_counted seq;
+                check_epoch_gap seq;
                 apply seq (EnterRet (nat_of_int w, Some (nat_of_int i)))
               | None -> raise (Rej (seq, "token outside the table")))
            end
@@ -71,6 +84,10 @@ let () =
             | Some i -> apply seq (LeaveCall (nat_of_int w, nat_of_int i))
             | None -> raise (Rej (seq, "token outside the table")))
          | H _ -> ()
+         | E (seq, _, kind, 7, _, v, ok) when ok >= 0 && (kind = 1 || kind = 7) ->
+           (* the global epoch was written (epoch thread) *)
+           cur_epoch := int_of_n v;
+           check_epoch_gap seq
          | E (seq, tid, kind, obj, addr, v, ok) when tid >= 0 && tid < !nworkers && ok >= 0 ->
            let t = nat_of_int tid in
            (match obj, kind, slot_of addr with
@@ -81,6 +98,8 @@ let () =
             | 5, 2, Some i -> apply seq (CasRunning (t, nat_of_int i, ok = 1))
             | 6, 1, Some i ->
               Hashtbl.replace begins i (v <> N0);
+              Hashtbl.replace begin_val i (int_of_n v);
+              check_epoch_gap seq;
               check_counted seq;
               if v = N0 then apply seq (ClearBegin (t, nat_of_int i))
               else apply seq (StoreBegin (t, nat_of_int i, v))
